@@ -11,6 +11,7 @@ import (
 	"io"
 	"testing"
 	"time"
+	_ "time/tzdata"
 
 	mozilla "go.mozilla.org/pkcs7"
 	"pgregory.net/rapid"
@@ -37,10 +38,11 @@ type Case struct {
 	Payload hx.Hex
 	Key     int
 	Cert    hx.Hex
-	TZMin   int  // offset of the process time zone from UTC in minutes
-	OpenSSL bool // also ask the openssl CLI
-	Slow    bool // the signer answers only after the wall clock has moved on to the next second (HSM / smartcard)
-	Failed  bool // an update whose signer fails is attempted first (unplugged token), then the real one
+	TZMin   int    // offset of the process time zone from UTC in minutes
+	Zone    string // when set: the process time zone is this named zone (one with daylight saving rules) instead of a fixed offset
+	OpenSSL bool   // also ask the openssl CLI
+	Slow    bool   // the signer answers only after the wall clock has moved on to the next second (HSM / smartcard)
+	Failed  bool   // an update whose signer fails is attempted first (unplugged token), then the real one
 }
 
 type brokenSigner struct{ crypto.Signer }
@@ -63,6 +65,8 @@ type raw []byte
 
 func (r raw) Marshal(b *bytes.Buffer) { b.Write(r) }
 func (r raw) Bytes() []byte           { return r }
+
+var dstZones = []string{"Europe/Berlin", "America/New_York", "Pacific/Auckland", "America/Santiago", "Australia/Sydney", "Europe/London"}
 
 var predefined = []efivar.Efivar{efivar.PK, efivar.KEK, efivar.Db, efivar.Dbx, efivar.SecureBoot, efivar.SetupMode, efivar.BootOrder, efivar.LoaderEntrySelected, efivar.PKDefault, efivar.DbxDefault}
 
@@ -118,6 +122,10 @@ func genCase(t *rapid.T) Case {
 	c.Key, c.Cert = id.Key, id.Cert.Raw
 	if rapid.IntRange(0, 3).Draw(t, "utc") != 0 {
 		c.TZMin = 15 * rapid.IntRange(-48, 56).Draw(t, "tzquarters")
+		if rapid.IntRange(0, 2).Draw(t, "namedzone") == 0 {
+			// zones with daylight saving rules, on both hemispheres: at any date some of them are in summer time
+			c.Zone = rapid.SampledFrom(dstZones).Draw(t, "zone")
+		}
 	}
 	c.Slow = gen.Chance(t, "slowsigner", 1, 60)
 	c.Failed = rapid.IntRange(0, 5).Draw(t, "failedfirst") == 0
@@ -183,6 +191,18 @@ func checkCase(c Case) error {
 	// --- run under the configured process time zone
 	saved := time.Local
 	time.Local = time.FixedZone("verif", c.TZMin*60)
+	if c.Zone != "" {
+		loc, lerr := time.LoadLocation(c.Zone) // from the time/tzdata package compiled into the test binary
+		if lerr != nil {
+			return fmt.Errorf("bad case: zone %q: %v", c.Zone, lerr)
+		}
+		time.Local = loc
+		if time.Now().In(loc).IsDST() {
+			hx.Class("process_time_zone_in_daylight_saving_time")
+		} else {
+			hx.Class("process_time_zone_with_dst_rules_in_standard_time")
+		}
+	}
 	t0 := time.Now().UTC().Truncate(time.Second)
 	var m efivar.Marshallable = raw(payload)
 	if dec, err := esl.Decode(payload); err == nil && len(payload) > 0 && len(dec) > 0 {
